@@ -41,7 +41,9 @@ def _lets(fn):
         for n in A.pat_idents(st["pat"]):
             count[n] = count.get(n, 0) + 1
         if A.kind(pat) == "Pat::Ident" and not pat.get("mutability") and not pat.get("by_ref") and st.get("init") and not st["init"].get("diverge"):
-            inits[pat["ident"]["sym"]] = st["init"]["expr"]
+            # a fallible initialiser (`..?`) is an observation of its own, not an alias
+            if not any(A.kind(x) == "Expr::Try" for x, _ in A.walk(st["init"]["expr"])):
+                inits[pat["ident"]["sym"]] = st["init"]["expr"]
     # names also bound by closures / patterns elsewhere are ambiguous
     for x, _ in A.walk(fn.block):
         k = A.kind(x)
@@ -103,7 +105,70 @@ def _atomic(c):
     return True
 
 
+def _split_top(c, op):
+    parts, depth, cur, i = [], 0, "", 0
+    in_str = False
+    while i < len(c):
+        ch = c[i]
+        if ch == '"' and (i == 0 or c[i - 1] != "\\"):
+            in_str = not in_str
+        if not in_str:
+            if ch in "([{":
+                depth += 1
+            elif ch in ")]}":
+                depth -= 1
+            if depth == 0 and c.startswith(op, i):
+                parts.append(cur)
+                cur = ""
+                i += len(op)
+                continue
+        cur += ch
+        i += 1
+    parts.append(cur)
+    return parts
+
+
+def _whole_parens(c):
+    if not (c.startswith("(") and c.endswith(")")):
+        return False
+    depth = 0
+    for i, ch in enumerate(c):
+        depth += ch == "("
+        depth -= ch == ")"
+        if depth == 0 and i < len(c) - 1:
+            return False
+    return True
+
+
+def canon_bool(c, positive=True):
+    """negation normal form of a rendered boolean condition: `!` pushed to the atoms (De Morgan), `a != b` written
+    `!(a==b)`, `.is_none()` written `!(..is_some())`, redundant parentheses dropped; operand order is kept"""
+    c = c.strip()
+    while _whole_parens(c):
+        c = c[1:-1].strip()
+    ors = _split_top(c, "||")
+    if len(ors) > 1:
+        parts = [canon_bool(x, positive) for x in ors]
+        return ("||" if positive else "&&").join(f"({x})" if ("||" in x and not positive) or ("&&" in x and False) else x for x in parts)
+    ands = _split_top(c, "&&")
+    if len(ands) > 1:
+        parts = [canon_bool(x, positive) for x in ands]
+        return ("&&" if positive else "||").join(f"({x})" if "||" in x and positive else x for x in parts)
+    if c.startswith("!") and not c.startswith("!="):
+        return canon_bool(c[1:], not positive)
+    if c.endswith(".is_none()") and _atomic(c):
+        return canon_bool(c[: -len(".is_none()")] + ".is_some()", not positive)
+    ne = _split_top(c, "!=")
+    if len(ne) == 2 and len(_split_top(c, "==")) == 1:
+        return canon_bool(f"{ne[0]}=={ne[1]}", not positive)
+    return c if positive else f"!({c})"
+
+
 def _polar(cond, positive):
+    return "if " + canon_bool(cond, positive)
+
+
+def _polar_old(cond, positive):
     """`if C` / `if !(C)` with double negations removed, so that `if c {..} else {X}` and `if !c {X}` read alike"""
     c = cond.strip()
     while True:
@@ -224,10 +289,13 @@ def guard_chain(fn, site, parents, lets):
                 # complement of what the earlier unguarded arms take (`Err(_)` after `Ok(x)`, `_`, a binding)
                 txt = f"{scr} !~ {'|'.join(sorted(earlier_plain))}"
             else:
-                txt = f"{scr} ~ {A.render_pat(p['pat'])}{gtxt}"
+                txt = f"{scr} ~ {A.render_pat(p['pat'])}"
             if earlier_guarded:
                 txt += f" [after {' | '.join(earlier_guarded)}]"
             chain.append(txt)
+            if gtxt:
+                # `P if g => ..` reads like `P => if g { .. }`
+                chain.append(_polar(gtxt[4:], True))
         elif k == "Expr::While":
             chain.append(f"while {_inline(_r(p['cond']), lets)}")
     return chain
@@ -287,7 +355,14 @@ def collect(ctx):
                 base = f"{rel}::{fn.qual}:{kind_}:{(msg or '<no message>')[:70]}"
                 per[base] = per.get(base, 0) + 1
                 key = base if per[base] == 1 else f"{base}#{per[base]}"
-                chain = [re.sub(r"^(.*)\.filter\(\|_\|(.*)\) ~ Some\((.*)\)$", r"\1 ~ Some(\3) if \2", c) for c in chain]
+                ch2 = []
+                for c in chain:
+                    mf = re.fullmatch(r"(.*)\.filter\(\|_\|(.*)\) ~ Some\((.*)\)", c)
+                    if mf:
+                        ch2 += [f"{mf.group(1)} ~ Some({mf.group(3)})", _polar(mf.group(2), True)]
+                    else:
+                        ch2.append(c)
+                chain = ch2
                 raw_chain = list(chain)
                 canon = A.alpha(" && ".join(chain), numbered=False)
                 out.append({"key": key, "file": rel, "fn": fn.qual, "kind": kind_, "message": msg, "guard": canon, "chain": raw_chain, "node": x, "parents": ps, "fnobj": fn, "raised": raised, "where": ctx.where(f, x) if hasattr(ctx, "where") else ""})
